@@ -200,6 +200,27 @@ def random_scripts(rng, n, maxlen=200):
                 b'\x52' + btc.push(b'd/example') + btc.push(rng.randbytes(8)) + btc.push(b'{}') + b'\x6d\x6d' + tpl_,
                 b'\x53' + btc.push(b'd/example') + btc.push(b'{"ip":"1.2.3.4"}') + b'\x6d\x75' + tpl_,
                 b'\x53' + btc.push(b'd/x', 1) + btc.push(b'v', 2) + b'\x6d\x75\x61' + tpl_, b'\x75' + tpl_, b'\x6d' + tpl_]
+    # shapes every real chain is full of: witness commitment, pay-to-anchor, Omni / counterparty / runestone / ordinal-style
+    # data carriers, Satoshi-era pay-to-pubkey with an uncompressed key, 1-of-1 .. 3-of-3 and 15-of-15 bare multisig,
+    # Liquid-style fee outputs (empty script), OP_TRUE / anyone-can-spend, CLTV / CSV prefixed templates
+    uk = b'\x04' + rng.randbytes(64)
+    ks = [b'\x02' + rng.randbytes(32) for _ in range(15)]
+    out += [b'\x6a\x24\xaa\x21\xa9\xed' + rng.randbytes(32), b'\x51\x02\x4e\x73', b'\x6a\x14omni' + rng.randbytes(16), b'\x6a' + btc.push(b'CNTRPRTY' + rng.randbytes(20)),
+            b'\x6a\x5d' + btc.push(rng.randbytes(12)), b'\x6a\x5d', b'\x6a\x5d\x00', b'\x6a' + btc.push(b'ord') + b'\x01\x01' + btc.push(b'text/plain') + b'\x00' + btc.push(b'hi'),
+            btc.p2pk(uk), b'\x51' + btc.push(ks[0]) + b'\x51\xae', b'\x52' + btc.push(ks[0]) + btc.push(ks[1]) + b'\x52\xae',
+            b'\x53' + b''.join(btc.push(x) for x in ks[:3]) + b'\x53\xae', b'\x5f' + b''.join(btc.push(x) for x in ks) + b'\x5f\xae',
+            b'\x51' + btc.push(uk) + btc.push(ks[1]) + btc.push(rng.randbytes(33)) + b'\x53\xae', b'', b'\x51', b'\x00', b'\x6a',
+            btc.push((500000).to_bytes(3, 'little')) + b'\xb1\x75' + btc.p2pkh(h), btc.push(b'\x90') + b'\xb2\x75' + btc.p2pkh(h),
+            b'\x63' + btc.p2pkh(h) + b'\x67' + btc.p2sh(h) + b'\x68', b'\xa9\x14' + h + b'\x87\x69', b'\x00\x14' + h + b'\x00', b'\x51\x20' + rng.randbytes(32) + b'\x51']
+    # real curve points in every serialisation found on chain (compressed, uncompressed, hybrid 06/07, and a hybrid prefix that
+    # contradicts the parity): an address hashes the pushed bytes, not a re-serialisation of the point
+    for sk in (1, 2, 3, 0xdeadbeef, 2 ** 200 + 12345):
+        enc = btc.pubkey_encodings(sk)
+        for nm in ('compressed', 'uncompressed', 'hybrid', 'hybrid_wrong_parity'):
+            out += [btc.p2pk(enc[nm]), btc.p2pk(enc[nm])[:1] + b'' + btc.p2pk(enc[nm])[1:]]
+        out += [b'\x51' + btc.push(enc['hybrid']) + btc.push(enc['compressed']) + b'\x52\xae',
+                b'\x52' + btc.push(enc['uncompressed']) + btc.push(enc['hybrid']) + btc.push(enc['compressed']) + b'\x53\xae',
+                btc.p2pkh(btc.hash160(enc['hybrid'])), btc.p2pkh(btc.hash160(enc['uncompressed'])), b'\x51\x20' + enc['compressed'][1:]]
     # scripts beyond Bitcoin's 10 000-byte script size limit are still just scripts for a parser
     out += [b'\x51' * 10001, b'\x6a' + btc.push(rng.randbytes(10100)), b'\x51' + btc.push(rng.randbytes(10050)) + b'\x51\xae',
             b'\x75' * 10000, b'\x75' * 20000]
